@@ -931,7 +931,12 @@ def judge_restrictions_hist(case, sdk):
         garbage = any(op.get(f) for f in ("garbageKey", "garbageFilter", "garbageCond", "garbageUpdate"))
         unsupplied = sorted(t for t in toks if t[:1] in (b"#", b":") and placeholder_ok(t) and t not in names + values)
         if unsupplied and not garbage and not native and not unused and not malformed and k not in ("err", "panicErr", "pagesErr"):
-            v.append({"sdk": sdk, "step": i, "sig": "placeholder-unsupplied", "op": op["op"],
+            returned = None
+            if k == "search":
+                returned = len(o["search"]["items"])
+            elif k == "pages":
+                returned = sum(len(pg["items"]) for pg in o["pages"])
+            v.append({"sdk": sdk, "step": i, "sig": "placeholder-unsupplied", "op": op["op"], "unsupplied": [x.decode("latin1") for x in unsupplied], "returned": returned,
                       "why": "the expressions use %s, which the request does not supply; the request was accepted" % [x.decode("latin1") for x in unsupplied]})
     return v
 
